@@ -5,6 +5,9 @@ Property theorems only. The generator (`Xoro`) and `shuffle` are the transcripti
 -/
 import Bourse.Model.Rng
 import Bourse.Model.Env
+import Bourse.Lemmas.ShuffleBij
+import Mathlib.Data.List.Permutation
+import Mathlib.Data.Nat.Factorial.Basic
 
 namespace Bourse.Props.C15
 open Bourse
@@ -85,5 +88,66 @@ theorem step_deterministic (e : MEnv) (g1 g2 : Xoro) (h : g1 = g2) : e.step g1 =
 `slice.shuffle` produces with `Xoroshiro128StarStar::seed_from_u64(101)`. -/
 example : (Xoro.shuffle (List.range 8) (Xoro.seed 101)).map (·.1) = some [2, 5, 0, 1, 7, 3, 6, 4] := by
   decide
+
+
+/-! ### Every order is reachable by exactly one draw vector -/
+
+/-- The real shuffle (any generator state) is the explicit-draw loop on some valid draw vector:
+the draw for index `k` is below `k + 1`. -/
+theorem shuffle_is_draws {α} (l : List α) (g : Xoro) (l' : List α) (g' : Xoro)
+    (h : Xoro.shuffle l g = some (l', g')) :
+    ∃ ds ∈ validDraws (l.length - 1), l' = shuffleDraws (l.length - 1) l ds :=
+  shuffleFrom_draws _ l g l' g' h
+
+theorem validDraws_count (i : Nat) : (validDraws i).length = (i + 1).factorial := by
+  induction i with
+  | zero => rfl
+  | succ i ih =>
+    simp only [validDraws, List.length_flatMap, List.length_map, ih, List.map_const', List.length_range]
+    rw [List.sum_replicate_nat, Nat.factorial_succ (i + 1)]
+
+theorem validDraws_nodup (i : Nat) : (validDraws i).Nodup := by
+  induction i with
+  | zero => simp [validDraws]
+  | succ i ih =>
+    simp only [validDraws]
+    rw [List.nodup_flatMap]
+    refine ⟨fun d _ => ih.map (fun a b h => by injection h), ?_⟩
+    refine List.Pairwise.imp_of_mem ?_ (List.nodup_range (n := i + 2))
+    intro a b _ _ hab
+    simp only [Function.onFun, List.disjoint_left, List.mem_map]
+    rintro x ⟨r, _, rfl⟩ ⟨r', _, h⟩
+    injection h with h1 _
+    exact hab h1.symm
+
+/-- **Uniformity of the shuffle reduces to uniformity of the draws.** For a batch without repeated
+items (instructions are distinct queue positions), running the shuffle loop over ALL valid draw
+vectors produces every permutation of the batch exactly once: the draw vectors (there are `n!` of
+them) and the `n!` processing orders are in bijection. So if the generator's bounded draws are
+uniform and independent, every processing order has probability exactly `1/n!`. -/
+theorem shuffle_outcomes_are_all_permutations_once {α} [DecidableEq α] (l : List α) (hn : l.Nodup) :
+    ((validDraws (l.length - 1)).map (shuffleDraws (l.length - 1) l)).Perm l.permutations := by
+  cases hl : l with
+  | nil => simp [validDraws, shuffleDraws]
+  | cons a t =>
+    rw [← hl]
+    have hlen : l.length - 1 < l.length := by rw [hl]; simp
+    have hnod : ((validDraws (l.length - 1)).map (shuffleDraws (l.length - 1) l)).Nodup := by
+      refine List.Nodup.map_on ?_ (validDraws_nodup _)
+      intro ds hds ds' hds' heq
+      exact shuffleDraws_injective _ l hn hlen ds ds' hds hds' heq
+    have hsub : (validDraws (l.length - 1)).map (shuffleDraws (l.length - 1) l) ⊆ l.permutations := by
+      intro x hx
+      obtain ⟨ds, _, rfl⟩ := List.mem_map.mp hx
+      exact List.mem_permutations.mpr (shuffleDraws_perm _ _ _)
+    apply (List.subperm_of_subset hnod hsub).perm_of_length_le
+    rw [List.length_permutations, List.length_map, validDraws_count]
+    have : l.length - 1 + 1 = l.length := by rw [hl]; simp
+    rw [this]
+
+/-- Concrete reading (kernel evaluation): the 3! = 6 draw vectors for a batch of three give the six
+orders, each once. -/
+example : ((validDraws 2).map (shuffleDraws 2 [10, 20, 30])) =
+    [[20, 30, 10], [30, 20, 10], [30, 10, 20], [10, 30, 20], [20, 10, 30], [10, 20, 30]] := by decide
 
 end Bourse.Props.C15
